@@ -138,7 +138,7 @@ package builder
 //@ domain bounded-depth: 0 <= s.depth && s.depth <= 64
 // add has no failure of its own: the only errors it reports are the one its bit-slice reports (the
 // hash has no bits left for this depth, see hashBits.Slice) and the ones a sub-shard's add reports.
-//@ forbids fmt.Errorf errors.New
+//@ forbids fmt.Errorf errors.New own-error-values
 
 //@ func (*data/builder.shard).formatLinkName
 //@ prop C02 C08
